@@ -42,6 +42,9 @@ CONSTANTS CIDS,        \* e.g. {"c1","c2"}
           MaxInstr,    \* bound on environment instructions
           MaxFail,     \* bound on daemon failures
           Eager,       \* TRUE: internal steps have priority (replayable behaviours)
+          GatedFinish, \* TRUE (with Eager): the workers' steps after a call returned (HandleErr, Finish)
+                       \* and the Clean step are scheduled by the environment too: the replay driver
+                       \* holds the real workers at the verifGate hooks "returned" and "clean"
           RecoverUsesStatePin,
           StatusAllListsDirect,
           DirOverRecStuck   \* TRUE = a direct pin of a CID the daemon still holds recursively
@@ -134,7 +137,8 @@ InternalEnabledIn(o, pq, uq, w) ==
     \E x \in Workers :
         \/ (x \in PinW /\ w[x].pc = "idle" /\ pq # <<>>)
         \/ (x = UnpinW /\ w[x].pc = "idle" /\ uq # <<>>)
-        \/ w[x].pc \in {"got", "ret_err", "ret_ok", "done"}
+        \/ w[x].pc = "got"
+        \/ (w[x].pc \in {"ret_err", "ret_ok", "done"} /\ (~GatedFinish \/ x = RemoteT))
         \/ (w[x].pc \in {"call", "applied"} /\ o[w[x].op].cancelled)
 
 CallKind(o) == IF o.type = "pin" THEN "pin" ELSE "unpin"
@@ -382,7 +386,8 @@ HandleErr(w) ==
                     THEN ops' = Collect(ops, table, pinQ, unpinQ, wk')
                     ELSE ops' = Collect([ops EXCEPT ![id].phase = "error", ![id].err = "ipfs", ![id].cancelled = TRUE],
                                         table, pinQ, unpinQ, wk')
-    /\ act' = [name |-> "HandleErr", w |-> w, br |-> <<ops[wk[w].op].cancelled, ops[wk[w].op].type, w = RemoteT>>]
+    /\ act' = [name |-> "HandleErr", w |-> w, cid |-> ops[wk[w].op].cid, op |-> ops[wk[w].op].type,
+               br |-> <<ops[wk[w].op].cancelled, ops[wk[w].op].type, w = RemoteT>>]
     /\ UNCHANGED <<st, ipfs, table, pinQ, unpinQ, ninstr, nfail, lastRes, healthy>>
 
 \* success: SetPhase(Done); Cancel()
@@ -390,7 +395,7 @@ Finish(w) ==
     /\ wk[w].pc = "ret_ok"
     /\ ops' = [ops EXCEPT ![wk[w].op].phase = "done", ![wk[w].op].cancelled = TRUE]
     /\ wk' = [wk EXCEPT ![w].pc = "done"]
-    /\ act' = [name |-> "Finish", w |-> w]
+    /\ act' = [name |-> "Finish", w |-> w, cid |-> ops[wk[w].op].cid, op |-> ops[wk[w].op].type]
     /\ UNCHANGED <<st, ipfs, table, pinQ, unpinQ, ninstr, nfail, lastRes, healthy>>
 
 \* optracker.Clean: delete only if the table still holds this very operation
@@ -400,11 +405,14 @@ Clean(w) ==
         /\ table' = IF table[c] = id THEN [table EXCEPT ![c] = 0] ELSE table
         /\ wk' = [wk EXCEPT ![w] = Idle]
         /\ ops' = Collect(ops, table', pinQ, unpinQ, wk')
-    /\ act' = [name |-> "Clean", w |-> w,
+    /\ act' = [name |-> "Clean", w |-> w, cid |-> ops[wk[w].op].cid, op |-> ops[wk[w].op].type,
                br |-> <<table[ops[wk[w].op].cid] = wk[w].op, ops[wk[w].op].type, st[ops[wk[w].op].cid], ipfs[ops[wk[w].op].cid]>>]
     /\ UNCHANGED <<st, ipfs, pinQ, unpinQ, ninstr, nfail, lastRes, healthy>>
 
-Internal == \E w \in Workers : Dequeue(w) \/ Start(w) \/ Abort(w) \/ HandleErr(w) \/ Finish(w) \/ Clean(w)
+Gated(w) == GatedFinish /\ w # RemoteT
+Internal == \E w \in Workers :
+    \/ Dequeue(w) \/ Start(w) \/ Abort(w)
+    \/ (~Gated(w) /\ (HandleErr(w) \/ Finish(w) \/ Clean(w)))
 
 InternalEnabled == InternalEnabledIn(ops, pinQ, unpinQ, wk)
 
@@ -413,6 +421,7 @@ Env ==
                         \/ Untrack(c) \/ Recover(c)
     \/ RecoverAll
     \/ \E w \in Workers : Apply(w) \/ Fail(w) \/ ReturnOk(w)
+    \/ \E w \in Workers : Gated(w) /\ (HandleErr(w) \/ Finish(w) \/ Clean(w))
 
 Step == IF Eager THEN (Internal \/ (~InternalEnabled /\ Env)) ELSE (Internal \/ Env)
 Next == Step /\ proj' = Proj(st', ipfs', ops', table', pinQ', unpinQ', wk')
